@@ -358,6 +358,36 @@ def check_sourcemap(src, out, toks, strict=True):
     return problems
 
 
+# the five CharKinds of spec/Cursor.tla (Ascii, LF, Two, Three, Astral), one representative each
+KIND_CHARS = ["x", "\n", "é", "字", "😀"]
+# every construct whose content the parser consumes in one step or character by character, followed on the same
+# line by located nodes: MCCursor!Srcs (all sources over the five kinds up to MaxLen) is placed in each of them
+SLOTS = ['<!--%s--><view a="x">{{ m }}</view>',
+         '<view>{{ a /*%s*/ + b }}</view>',
+         '<wxs module="m">%s</wxs><view>{{ m }}</view>',
+         '<view a="%s" b="y">{{ m }}</view>',
+         "<view a='%s' b=\"y\">{{ m }}</view>",
+         '%s<view>{{ m }}</view>',
+         '<view>%s</view><view>{{ m }}</view>',
+         "<view>{{ '%s' + b }}</view><a/>",
+         '<view a="{{ \'%s\' }}" b="y"/>',
+         '<view>{{ a }}%s{{ b }}</view>',
+         '<view a="p{{ a }}%s{{ b }}" c="d"/>',
+         '<view>{{ a +%s b }}</view><a/>',
+         '<view\n%s\na="x">{{ m }}</view>']
+
+
+def slot_inputs(maxlen):
+    import itertools
+    out = []
+    for n in range(1, maxlen + 1):
+        for seq in itertools.product(KIND_CHARS, repeat=n):
+            f = "".join(seq)
+            for t in SLOTS:
+                out.append(t % f)
+    return out
+
+
 def build_inputs(tier, seed):
     rnd = vlib.rng(seed, "c16")
     snips = corpus.wxml_snippets()
@@ -372,6 +402,7 @@ def build_inputs(tier, seed):
             inputs.extend(wxmlvar.variants(t, rnd, 1))
     except ImportError:
         pass
+    inputs.extend(slot_inputs(3 if tier == "quick" else 4))
     seen = set()
     out = []
     for s in inputs:
@@ -383,9 +414,11 @@ def build_inputs(tier, seed):
 
 def run(tier, seed, replay):
     ck = vlib.Check("C16", tier, seed)
-    ck.rule = ("inputs = harvested repository snippets and generated templates, each in variants with "
-               "random line breaks (LF/CRLF/tab) inside tags and bindings and 2-/3-/4-byte characters "
-               "before and between tokens; non-trivial = distinct input with at least one located leaf")
+    ck.rule = ("inputs = harvested repository snippets in variants with random line breaks (LF/CRLF/tab) inside tags and "
+               "bindings and 2-/3-/4-byte characters before and between tokens, plus every source of MCCursor!Srcs (all "
+               "sequences over the five character kinds up to length 3, thorough 4) placed inside each of 13 consuming "
+               "constructs (comment, js comment, wxs body, attribute values, text, string literals, between bindings, in-tag "
+               "white space) with located nodes after it; non-trivial = distinct input with at least one located leaf")
     ck.assumptions = ["TLC 1.8.0", "cfg(glass_easel_verif) cursor hook records after each state change",
                       "python html.unescape only used to accept (never to reject) entity spellings"]
     if replay:
@@ -413,7 +446,8 @@ def run(tier, seed, replay):
     for rj in rej:
         s = inputs[rj["item"]]
         ck.report({"src": s, "sig": "cursor-trace", "event": rj["event"], "event_no": rj["event_no"]},
-                  "cursor trace rejected by CursorTrace at event %s: %s" % (rj["event_no"], rj["event"]))
+                  "cursor trace of %r rejected by CursorTrace at event %s: %s (the recorded index / line / column is not the fold of "
+                  "the consumed text)" % (s[:100], rj["event_no"], rj["event"]))
     # 3/4. AST and source map
     for s, r in zip(inputs, results):
         if [p for p in r["panic"] if p["phase"] in ("add_tmpl", "ast", "stringify")]:
